@@ -23,6 +23,11 @@ type Explorer struct {
 	Check func(x *Exec)
 	// KeyFn, when set, enables state caching: a state whose key was seen is not expanded again.
 	KeyFn func() uint64
+	// Symmetric: threads spawned at the same site are interchangeable in the state key.
+	Symmetric bool
+	// Deviations: the bound counts departures from the default policy (any choice other than the
+	// first alternative) instead of preemptions.
+	Deviations bool
 
 	// results
 	Execs       int64
@@ -49,6 +54,16 @@ func cost(tr []Point, upto int) int {
 	return c
 }
 
+func devCost(tr []Point, upto int) int {
+	c := 0
+	for i := 0; i < upto && i < len(tr); i++ {
+		if tr[i].Chosen != 0 {
+			c++
+		}
+	}
+	return c
+}
+
 // RunOne executes a single schedule and returns the execution (already torn down).
 func (e *Explorer) RunOne(prefix []int) *Exec {
 	if e.written == nil {
@@ -58,7 +73,7 @@ func (e *Explorer) RunOne(prefix []int) *Exec {
 		e.Setup()
 	}
 	x := &Exec{parked: make(chan *Thread), closed: map[uintptr]bool{}, Prefix: prefix, MaxSteps: e.MaxSteps,
-		Prio: e.Prio, written: e.written, KeyFn: e.KeyFn, seen: e.seen}
+		Prio: e.Prio, written: e.written, KeyFn: e.KeyFn, seen: e.seen, Symmetric: e.Symmetric, Bounded: e.Bound >= 0}
 	x.run(e.Body)
 	if x.diverged != "" {
 		e.HarnessErr = fmt.Errorf("%s", x.diverged)
@@ -109,12 +124,17 @@ restart:
 		for i := len(tr) - 1; i >= len(prefix); i-- {
 			p := tr[i]
 			base := cost(tr, i)
+			if e.Deviations {
+				base = devCost(tr, i)
+			}
 			for alt := p.N - 1; alt >= 1; alt-- {
 				if alt == p.Chosen {
 					continue
 				}
 				c := base
-				if p.PrevEnabled && alt >= p.PrevCount {
+				if e.Deviations {
+					c++
+				} else if p.PrevEnabled && alt >= p.PrevCount {
 					c++
 				}
 				if e.Bound >= 0 && c > e.Bound {
